@@ -26,7 +26,7 @@ def install_cache_hook(I, ctx, log):
     depth = {}
     def hooked(ctx_, f, a):
         tm = targets.get(f.name); me = ctx_.tid
-        if tm is None or depth.get(me, 0) > 0:
+        if tm is None or depth.get(me, 0) > 0 or me in getattr(ctx_, 'nolog', ()):
             r = yield from orig(ctx_, f, a); return r
         depth[me] = depth.get(me, 0) + 1
         try:
@@ -50,6 +50,9 @@ def cache_parts(P, cacheobj, ty, tid):
         if isinstance(x, (LockM, RefCellM)): x = x.inner.v
         return x
     store = unlazy(f.get('map') if 'map' in f else f.get('cache')); queue = unlazy(f['order'])
+    from .engine import MapM as _MapM, SeqM as _SeqM
+    if not isinstance(store, _MapM): store = None            # a storage static that has never been touched
+    if not isinstance(queue, _SeqM): queue = None
     def optval(o):
         o = deref_all(o)
         return None if o.variant == 0 else o.fields[0]
@@ -158,7 +161,7 @@ def run(P, item):
         g_pre = [c for c in pre_log if c['method'] == 'get']
         if g_pre:
             st0, q0, _c = cache_parts(P, g_pre[-1]['cache'], g_pre[-1]['ty'], 0)
-            if st0 is not None: t0_pre = ([k for k, v in st0.items], [v for k, v in st0.items], list(q0.items), st0, q0)
+            if st0 is not None and q0 is not None: t0_pre = ([k for k, v in st0.items], [v for k, v in st0.items], list(q0.items), st0, q0)
         nev = len(ctx.events)
         # ---- the call under test
         tid = 1 if pattern == 'other-thread' else 0
